@@ -226,17 +226,21 @@ EXTENSIONS = {
     "{C4(z), C3(111)} of the octahedral group (coordinates replaced in place): scalars invariant, forces co-rotating.",
     "C03": " Also: (D) every iteration cap 6..30 (4..60 thorough) on two-molecule batches under every solver, so that the cap "
     "falls between the members' iteration counts; (E) open-shell batches whose padded member is an anion or radical anion, in "
-    "every position.",
+    "every position.  (F) exactly degenerate frontier levels (two H atoms 30 A apart as a restricted singlet, alone and as the padded member "
+    "of a batch) under diagonalisation and SP2: converged must mean self-consistent, a failure is flagged or refused loudly.",
     "C04": " Also (leaves): the SP2 tolerance axis 1e-5..1e-10 (inside and below the supported float64 window) and cold "
     "solves inside a batch with a molecule of another composition (UHF singlet, adaptive, Pulay/SP2).",
     "C05": " Also: N2 in the alphabet (orbital count of CH4, other composition), all six orders of mixed triples, one active "
     "state per batch row with the analytical excited gradient, and section `uhf`: every ordered pair of the alphabet + {CH3, O2} "
     "under UHF, padded and unpadded.",
     "C06": " Also: the unit-system twin (bohr input with length_conversion_factor = 1).",
-    "C07": " Also: forward of a differentiable job / unrelated calls / its backward, in every interleaving.",
+    "C07": " Also: forward of a differentiable job / unrelated calls / its backward, in every interleaving.  Section `uhf`: open-shell molecules under an "
+    "unrestricted reference (CH3, NH2; thorough also OH, CH2, O2 and three methods), twelve parameter names as caller leaf tensors, Etot and gap, scf_backward 1 and 2, against central differences.",
     "C08": " Also: user velocities with COM removal, molid subsets and permutations, and reversal to 1e-11 with density reuse off.",
     "C09": " Also: idempotency of a repeated XL evaluation, batch transparency of the XL/KSA functional incl. entropy up to "
-    "T_el 3e4 K, the same object moved to a new geometry, and a hot (T_el 13000 K) KSA family for the dt^2 scaling of the free energy.",
+    "T_el 3e4 K, the same object moved to a new geometry, and a hot (T_el 13000 K) KSA family for the dt^2 scaling of the free energy.  (g) the rank-m kernel "
+    "update replayed from the implementation's own Krylov directions and responses (recorded by module-level wrappers): least-squares coefficients recomputed in numpy, orthonormality, "
+    "v1 || D[P] - P, and the number of directions the stop rule (max_rank, err_threshold) gives; ranks 1..3 (thorough 1..6), padded batches, three thresholds.",
     "C10": " Two further oracles on every recovered image: the RNG state at each resumed step equals that of the uninterrupted "
     "run (engines that draw random numbers), and a checkpoint once published never disappears later in the same history.  Further "
     "configurations: /data sparser than two checkpoint intervals; every byte cut of the XYZ writes after the first checkpoint.  Depth 2 at "
@@ -247,17 +251,21 @@ EXTENSIONS = {
     "it applies, its n_dof against that thermostat's stationary state, two noise draws per real integrator step; (r) a thermostatted run interrupted after a checkpoint and finished by run_from_checkpoint is "
     "still thermostatted with the original damping time.",
     "C13": " Also: seeding of the thermostat noise when velocities are supplied by the user.",
-    "C14": " Also: calls mixing ground- and excited-state rows, and the charges published by the XL path after a move.",
+    "C14": " Also: calls mixing ground- and excited-state rows, the charges published by the XL path after a move, objects with a history (revisit), "
+    "and driver-history cases: the same driver and Constants object served a system of the same padded shape with other elements first.",
     "C15": " The job pool also contains learned-parameter lists, a job refused inside the SCF loop, the same method/elements with "
     "another parameter directory, and a loose threshold shared by an XL-BOMD/Langevin run and a single point through the caller's "
     "own dictionary (MD jobs receive the caller's dictionary itself), single-precision jobs, and Langevin jobs on two layouts of one "
-    "padded shape that can share the engine object itself.",
+    "padded shape that can share the engine object itself; jobs on molecules of the same shape with other elements in the same slots (H2O / HCN) "
+    "that share the driver, the MD engine and the Constants object, and one molecule under two Hamiltonians with the analytical force evaluator and a shared Constants object.",
     "C16": " Also: the same object evaluated again (scripted positive and negative phase of the guess; rigidly rotated geometries), "
     "CIS and RPA; RPA with its own stored amplitudes handed back as the guess; on every solve |F C - C diag(e)| for the orbitals "
     "and orbital energies the solver used.",
     "C17": " Also: a coupling spike between two populated non-active states.",
     "C18": " Also: axis-aligned layouts (x, y, z, -z), a PM6 frame sub-lattice, active states given as tensors, the energy-only path; "
-    "requests outside the listed preconditions that are accepted must agree with their valid twin and with the molecules alone.",
+    "requests outside the listed preconditions that are accepted must agree with their valid twin and with the molecules alone.  Sortedness faults "
+    "also in over-padded arrays (every molecule shorter than the array), where a swap with padding puts a real atom behind every column a molecule fills.  Refusals after a history: a heterogeneous RPA / excited-gradient "
+    "request handed to a driver that served a homogeneous batch before (single point, or as the driver of an MD run) must get the outcome a new driver gives.",
     "C19": " Also: one driver object over a dimer scan that crosses a finite pair cutoff in both directions.",
 }
 
